@@ -1,9 +1,69 @@
 /-
   C05 — corruption and truncation are never reported as success with different data (container level).
+
+  The model is Model/XzDecode.lean (whole-buffer .xz decoder mirroring stream_decoder.c / block_decoder.c / index_hash.c),
+  parametric in the payload decoder and in the check function (`Env`), so every theorem below holds for the real
+  LZMA2/BCJ/delta chain and for CRC32/CRC64/SHA-256 alike.  Grammar and stage lemmas: Lemmas/XzDecode*.lean.
+  A universal "any damage is detected" statement is false for every fixed-size check, so the theorems say exactly what
+  acceptance implies and which damage is always caught.  Helper lemmas live in Lemmas/.
 -/
-import XzVerif.Model.XzDecode
+import XzVerif.Lemmas.XzDecodeStream
+import XzVerif.Lemmas.CrcFlip
 
 namespace XzVerif.C05
-open XzVerif XzVerif.Container XzVerif.XzDecode
+open XzVerif XzVerif.Container XzVerif.XzDecode XzVerif.Crc
+
+/-- **accept_implies_checked.**  If `lzma_stream_decoder` + `lzma_code(LZMA_FINISH)` ends with LZMA_STREAM_END on `b`, then
+    `b` has the structure `ValidXz` (Lemmas/XzDecodeStream.lean), i.e. for every Stream:
+    * the Stream Header decodes (magic, CRC32, reserved bits) — `ValidStream`;
+    * every Block (`BlocksRun.block`): its header decodes (CRC32, header padding zero, filter chain valid); the payload
+      decoder finished; Compressed/Uncompressed Size fields, when present, equal the real sizes; Block Padding is zero;
+      the stored Check equals `E.check` of the Block's output whenever the ID is supported and LZMA_IGNORE_CHECK is
+      off (`BlockFacts`);
+    * the Index field is byte for byte the canonical encoding of the (Unpadded Size, Uncompressed Size) pairs of the
+      Blocks that were decoded: Records = Blocks, Index Padding zero, CRC32 right (`FooterFacts.index_bytes`);
+      [the C code compares SHA-256 digests of the pairs; the model compares the lists — collision-freeness assumed];
+    * the Stream Footer decodes (magic, CRC32), Backward Size = real size of the Index, footer flags = header flags;
+    * Stream Padding (with LZMA_CONCATENATED) is a multiple of four zero bytes. -/
+theorem accept_implies_checked (E : Env) (fl : Flags) (b : List UInt8) (cap : Nat) (r : DRes)
+    (h : xzDecode E fl b cap = r) (hr : r.ret = .streamEnd) : ValidXz E fl b cap r.out r.consumed := by
+  unfold xzDecode at h
+  simp only [] at h
+  split at h
+  · subst h; simp at hr
+  · subst h
+    exact xzLoop_streamEnd E fl _ _ _ _ _ rfl hr
+
+/-- The same for `lzma_stream_buffer_decode` (success is LZMA_OK there). -/
+theorem accept_implies_checked_buffer (E : Env) (flags : Nat) (b : List UInt8) (cap : Nat) (r : DRes)
+    (h : xzBufferDecode E flags b cap = r) (hr : r.ret = .ok) :
+    ValidXz E (Flags.ofNat flags) b cap r.out r.consumed := by
+  unfold xzBufferDecode at h
+  split at h
+  · subst h; simp at hr
+  · split at h
+    · subst h; simp at hr
+    · simp only [] at h
+      split at h
+      · rename_i e _ hev
+        subst h
+        simp only [] at hr
+        -- an informational return is never LZMA_OK
+        have hin := xzLoop_events E (Flags.ofNat flags) (b.length + 1) true b cap e (by
+          have : (xzCall E (Flags.ofNat flags) b cap).events = e :: _ := hev
+          unfold xzCall at this
+          rw [this]; simp)
+        rcases hin with h1 | h1 | h1 <;> (rw [h1] at hr; simp at hr)
+      · split at h
+        · rename_i hse
+          subst h
+          exact xzLoop_streamEnd E _ _ _ _ _ (xzCall E (Flags.ofNat flags) b cap) rfl hse
+        · split at h
+          · subst h
+            simp only [] at hr
+            split at hr <;> simp at hr
+          · rename_i h1 h2
+            subst h
+            exact absurd hr h2
 
 end XzVerif.C05
